@@ -77,6 +77,29 @@ def set_fields(repo: Repo) -> list[str]:
             and ast.unparse(st.annotation).startswith("set[")]
 
 
+def environments_verbatim(r, repo: Repo) -> None:
+    """Every jinja2 Environment writes values verbatim (no auto-escaping - also not by file name -, finalize, extensions)."""
+    # every template environment writes values verbatim: no auto-escaping, no finalize hook, no extensions
+    n_env = 0
+    for mod in repo.modules.values():
+        for c in ast.walk(mod.tree):
+            if isinstance(c, ast.Call) and ast.unparse(c.func).split(".")[-1] == "Environment":
+                n_env += 1
+                kws_e = {kw.arg: ast.unparse(kw.value) for kw in c.keywords}
+                where = repo.enclosing_function(c)
+                wq = repo.qualname_of(where) if where is not None else mod.name
+                r.instance(f"environment:{wq}:{n_env}", {"where": wq, "keywords": kws_e})
+                for k in ("autoescape", "finalize", "extensions"):
+                    if k in kws_e and kws_e[k] not in ("False", "None", "()", "[]"):
+                        r.violation(wq, f"template environment transforms rendered values ({k}={kws_e[k]})",
+                                    "holders, contributors and expressions must reach the header exactly as given; with"
+                                    " auto-escaping `<`, `>`, `&` and quotes are rewritten (and re-escaped at every later run)",
+                                    repo.loc(c))
+                if None in kws_e:
+                    r.violation(wq, "template environment built from **kwargs", "cannot be shown to write values verbatim", repo.loc(c))
+    r.floor(3, "jinja2 Environment constructions", got=n_env)
+
+
 def rule_pipeline(ck: Check, repo: Repo, folder: Folder) -> None:
     r = ck.rule("R2", "field pipeline: ReuseInfo set fields = extractor output = render arguments ⊆ default template variables; tags agree")
     fields = set_fields(repo)
@@ -106,25 +129,7 @@ def rule_pipeline(ck: Check, repo: Repo, folder: Folder) -> None:
         if f not in tvars:
             r.violation("templates/default_template.jinja2", f"default template does not use {f}",
                         "information of that kind is silently dropped from every header", "src/reuse/templates/default_template.jinja2")
-    # every template environment writes values verbatim: no auto-escaping, no finalize hook, no extensions
-    n_env = 0
-    for mod in repo.modules.values():
-        for c in ast.walk(mod.tree):
-            if isinstance(c, ast.Call) and ast.unparse(c.func).split(".")[-1] == "Environment":
-                n_env += 1
-                kws_e = {kw.arg: ast.unparse(kw.value) for kw in c.keywords}
-                where = repo.enclosing_function(c)
-                wq = repo.qualname_of(where) if where is not None else mod.name
-                r.instance(f"environment:{wq}:{n_env}", {"where": wq, "keywords": kws_e})
-                for k in ("autoescape", "finalize", "extensions"):
-                    if k in kws_e and kws_e[k] not in ("False", "None", "()", "[]"):
-                        r.violation(wq, f"template environment transforms rendered values ({k}={kws_e[k]})",
-                                    "holders, contributors and expressions must reach the header exactly as given; with"
-                                    " auto-escaping `<`, `>`, `&` and quotes are rewritten (and re-escaped at every later run)",
-                                    repo.loc(c))
-                if None in kws_e:
-                    r.violation(wq, "template environment built from **kwargs", "cannot be shown to write values verbatim", repo.loc(c))
-    r.floor(3, "jinja2 Environment constructions", got=n_env)
+    environments_verbatim(r, repo)
     # tags in the template lines vs reader tags
     want_prefix = {"spdx_expressions": "SPDX-License-Identifier: ", "contributor_lines": "SPDX-FileContributor: ", "copyright_lines": ""}
     loops = re.findall(r"\{%\s*for\s+(\w+)\s+in\s+(\w+)\s*%\}\n(.*?)\{%\s*endfor\s*%\}", src, re.S)
